@@ -100,6 +100,10 @@ def run(cx):
     # the frame log keeps the whole list it is given
     from props.shared import ctor_initial_state
     ctor_initial_state(cx, "C12.s")
+    # a flushing disconnect keeps stepping only while is_send_pending(): it must cover the resend queue, or sent-but-unacknowledged
+    # reliable fragments stop being retransmitted when the application asks for a graceful close
+    from props.shared import send_pending_covers_queues
+    send_pending_covers_queues(cx, "C12.t")
     # "not transmitted again once the receiver has reported moving past the packet" compares window bases, which
     # are circular ids
     from props.idarith import id_arith_discipline
